@@ -19,12 +19,12 @@ use vkit::{
 const POLYS: [u64; 3] = [0x003D_A335_8B4D_C173, 0x0025_0e86_8d5e_a8d9, 0x003e_d61b_8db8_e8ab];
 
 #[derive(Clone, Debug, PartialEq, Eq, Hash)]
-struct Params {
-    fixed: bool,
-    poly: u64,
-    size: usize,
-    min: usize,
-    max: usize,
+pub struct Params {
+    pub fixed: bool,
+    pub poly: u64,
+    pub size: usize,
+    pub min: usize,
+    pub max: usize,
 }
 
 impl Params {
@@ -81,7 +81,7 @@ fn fingerprint(window: &[u8], poly: u64) -> u64 {
 }
 
 /// reference chunk lengths
-fn ref_chunks(data: &[u8], p: &Params, memo: &mut HashMap<(usize, usize), u64>) -> Vec<usize> {
+pub fn ref_chunks(data: &[u8], p: &Params, memo: &mut HashMap<(usize, usize), u64>) -> Vec<usize> {
     let mut out = Vec::new();
     let mut s = 0usize;
     let n = data.len();
